@@ -22,7 +22,25 @@ def expected_time(tz: str, t: int) -> int:
     return t + off
 
 
+def sweep_alphabet(cfg: dict) -> list:
+    """Every type number of every command, from and about a known node/child and an unknown node."""
+    evs = []
+    for cmd in (0, 1, 2):
+        for t in range(0, 61):
+            evs.append(["line", [1, 3, cmd, 0, t, "v" if cmd != 2 else ""]])
+            evs.append(["line", [9, 3, cmd, 0, t, "v" if cmd != 2 else ""]])
+    for t in range(0, 61):
+        evs.append(["line", [2, 255, 0, 0, t, "2.0"]])
+    for t in range(-1, 41):
+        evs.append(["line", [1, 255, 3, 0, t, cfg["reply"] if t == R.I_VERSION else "0"]])
+    for t in range(-1, 9):
+        evs.append(["line", [1, 255, 4, 0, t, "x"]])
+    return evs
+
+
 def alphabet(cfg: dict) -> list:
+    if cfg.get("sweep"):
+        return sweep_alphabet(cfg)
     v = cfg["version"]
     evs = [
         ["line", [255, 255, 3, 0, 3, ""]],
@@ -77,6 +95,8 @@ class Monitor:
         self.nontrivial = False
         self.last_desc = None
         self._alpha = alphabet(cfg)
+        for ev in cfg.get("prefix", []):
+            self.apply(ev)
 
     def events(self) -> list:
         return self._alpha
@@ -196,6 +216,10 @@ def run(ctx: core.Ctx) -> core.Report:
             for t in (T_WINTER, T_SUMMER):
                 for metric in (True, False):
                     grid.append({"version": v, "metric": metric, "tz": tz, "t": t, "reply": "2.2.0"})
+    base = [["line", [1, 255, 0, 0, 17, "2.0"]], ["line", [1, 3, 0, 0, 3, ""]], ["line", [1, 3, 1, 0, 2, "v"]]]
+    for v in versions:
+        for pre in (base, base + [["reboot", 1]]):
+            grid.append({"version": v, "metric": True, "tz": "PST8", "t": T_WINTER, "reply": "2.2.0", "sweep": True, "prefix": pre})
     gres = bfs.search_many(ctx, MOD, grid, 1)
     unfreeze()
     viols = res["violations"] + gres["violations"]
@@ -205,7 +229,7 @@ def run(ctx: core.Ctx) -> core.Report:
         "traces_validated_against_impl": res["transitions"] + gres["transitions"],
         "exhaustive": False,
         "distinct_nontrivial_transitions": res["nontrivial_transitions"] + gres["nontrivial_transitions"],
-        "rule": "all histories to the stated depth over the alphabet; non-trivial = a step for which the reaction table expects at least one write; plus a depth-1 grid over time zones x instants x versions x metric",
+        "rule": "all histories to the stated depth over the alphabet; non-trivial = a step for which the reaction table expects at least one write; plus a depth-1 grid over time zones x instants x versions x metric, plus a depth-1 sweep of every type number 0-60 of presentation/set/req (known and unknown node), internal -1..40 and stream -1..8 in two base states per version",
         "bounds": {"depth": depth, "per_cfg": res["per_cfg"], "grid_cfgs": len(grid)},
         "samples": ctx.pick(res["samples"], 3),
     }
